@@ -139,15 +139,21 @@ struct Vector {
 
     /// Appends the `value` as a new element to the end of this vector.
     void push_back(const T &value) {
+        // `value` may refer to an element of this vector: copy it before the
+        // storage is reallocated.
+        T copy(value);
         detach(inner->size + 1);
-        new (end()) T(value);
+        new (end()) T(std::move(copy));
         inner->size++;
     }
 
     /// Moves the `value` as a new element to the end of this vector.
     void push_back(T &&value) {
+        // `value` may refer to an element of this vector: move it out before the
+        // storage is reallocated.
+        T moved(std::move(value));
         detach(inner->size + 1);
-        new (end()) T(std::move(value));
+        new (end()) T(std::move(moved));
         inner->size++;
     }
 
